@@ -46,7 +46,7 @@ Proof.
   cbn [andb]. rewrite (N.eqb_sym Pawn k). reflexivity.
 Qed.
 
-Theorem succ_core b m : Rep b -> valid (abs b) = true -> (0 <= fifty b < 32767)%Z -> legal_spec (abs b) m = true ->
+Theorem succ_core b m : Rep b -> valid_core (abs b) = true -> (0 <= fifty b < 32767)%Z -> legal_spec (abs b) m = true ->
   abs (core b m) = succ_spec (abs b) m.
 Proof.
   intros HR HV HF HL.
@@ -72,7 +72,7 @@ Proof.
   rewrite (proj2 (N.eqb_neq _ 0) Hnz). rewrite EQ. reflexivity.
 Qed.
 
-Theorem C02_succ_proof z b m : Rep b -> valid (abs b) = true -> (0 <= fifty b < 32767)%Z ->
+Theorem C02_succ_proof z b m : Rep b -> valid_core (abs b) = true -> (0 <= fifty b < 32767)%Z ->
   legal_spec (abs b) m = true -> abs (fst (make z b m)) = succ_spec (abs b) m.
 Proof.
   intros HR HV HF HL. destruct (make_core z b m) as [h E]. rewrite E, abs_set_hashes.
@@ -91,9 +91,9 @@ Fixpoint legal_chain (p : pos) (ms : list N) : bool :=
 
 (* the two invariants a chain needs *)
 Definition valid_step_statement : Prop :=
-  forall p m, valid p = true -> legal_spec p m = true -> valid (succ_spec p m) = true.
+  forall p m, valid_core p = true -> legal_spec p m = true -> valid_core (succ_spec p m) = true.
 Definition make_Rep_statement (z : zobrist) : Prop :=
-  forall b m, Rep b -> valid (abs b) = true -> legal_spec (abs b) m = true -> (0 <= fifty b < 32767)%Z ->
+  forall b m, Rep b -> valid_core (abs b) = true -> legal_spec (abs b) m = true -> (0 <= fifty b < 32767)%Z ->
               Rep (fst (make z b m)).
 
 (* the clock: no wrap below 32767 *)
@@ -121,9 +121,9 @@ Proof.
 Qed.
 
 Theorem chain_proof z : valid_step_statement -> make_Rep_statement z ->
-  forall ms b, Rep b -> valid (abs b) = true -> (0 <= fifty b)%Z -> (fifty b + Z.of_nat (length ms) < 32768)%Z ->
+  forall ms b, Rep b -> valid_core (abs b) = true -> (0 <= fifty b)%Z -> (fifty b + Z.of_nat (length ms) < 32768)%Z ->
   legal_chain (abs b) ms = true ->
-  abs (play z b ms) = play_spec (abs b) ms /\ Rep (play z b ms) /\ valid (abs (play z b ms)) = true.
+  abs (play z b ms) = play_spec (abs b) ms /\ Rep (play z b ms) /\ valid_core (abs (play z b ms)) = true.
 Proof.
   intros VS MR. induction ms as [|m r IH]; intros b HR HV H0 H1 HL; cbn [play play_spec legal_chain length] in *.
   - tauto.
@@ -192,7 +192,7 @@ Lemma clock16_limit : wrap16 (32767 + 1) = (-32768)%Z.
 Proof. vm_compute. reflexivity. Qed.
 
 (* the en-passant clause in the vocabulary of the specification *)
-Theorem can_en_passant_succ b m : Rep b -> valid (abs b) = true -> legal_spec (abs b) m = true ->
+Theorem can_en_passant_succ b m : Rep b -> valid_core (abs b) = true -> legal_spec (abs b) m = true ->
   holds (abs b) (mv_from m) (stm b) Pawn = true ->
   (mv_to m = mv_from m + 16 \/ mv_to m + 16 = mv_from m) ->
   (can_en_passant b (mv_to m) = true <-> epsq (succ_spec (abs b) m) = Some ((mv_from m + mv_to m) / 2)).
@@ -214,7 +214,7 @@ Qed.
 
 (* the UCI list, when the accepted tokens are legal moves *)
 Theorem uci_legal_proof z : valid_step_statement -> make_Rep_statement z ->
-  forall toks b, Rep b -> valid (abs b) = true -> (0 <= fifty b)%Z ->
+  forall toks b, Rep b -> valid_core (abs b) = true -> (0 <= fifty b)%Z ->
   (fifty b + Z.of_nat (length (accepted_moves z b toks)) < 32768)%Z ->
   legal_chain (abs b) (accepted_moves z b toks) = true ->
   abs (apply_moves z b toks) = play_spec (abs b) (accepted_moves z b toks).
